@@ -4,6 +4,7 @@ import (
 	"io"
 	"log"
 	"os"
+	"strings"
 
 	"github.com/miekg/dns"
 
@@ -77,6 +78,33 @@ func tagged(l Line, locs [][]byte) bool {
 	return true
 }
 
+// Subnets and maps that apply to none of the generated names and cover none of the clients'
+// addresses: subnets of the unnamed default map and of maps no name selects, M / 8 lines of
+// names outside every generated zone.  They do cover the ECS addresses the queries carry.
+func unrelatedMaps(g2 *Gen, k int) {
+	r := g2.R
+	locs := [][]byte{locF, locG, []byte("bb"), locA, locB}
+	for i := 0; i < k; i++ {
+		lo := locs[r.Intn(len(locs))]
+		switch r.Intn(6) {
+		case 0:
+			g2.SubnetDefault(lo, []string{"192.0.2.0/24", "198.51.100.0/24", "192.0.2.0/25", "203.0.113.0/28", "2001:db8:ffff::/48"}[r.Intn(5)])
+		case 1:
+			g2.SubnetDefault(lo, []string{"192.0.2.0/24", "198.51.100.0/24"}[r.Intn(2)])
+		case 2:
+			g2.Subnet(lo, []string{"192.0.2.0/24", "198.51.100.0/24", "10.0.0.0/8", "0.0.0.0/0"}[r.Intn(4)], "zz")
+		case 3:
+			g2.Map("M", N("unrelated", "invalid"), []string{"m9", "m1", "zz"}[r.Intn(3)], r.Chance(1, 2))
+		case 4:
+			g2.Map("8", N("other", "invalid"), []string{"e9", "e1", "zz"}[r.Intn(3)], r.Chance(1, 2))
+		default:
+			g2.Subnet(lo, "192.0.2.0/24", "e9")
+		}
+	}
+}
+
+func isMapLine(l Line) bool { return l.Kind == "%" || l.Kind == "M" || l.Kind == "8" }
+
 // ForeignEdit derives the edited file: foreign-location rows added at declared names, zone
 // apexes, NS targets and lexicographic neighbours; foreign-tagged lines deleted or replaced.
 func ForeignEdit(g *Gen, locs [][]byte) []Line {
@@ -85,6 +113,9 @@ func ForeignEdit(g *Gen, locs [][]byte) []Line {
 	for _, l := range g.Lines {
 		if tagged(l, locs) && r.Chance(1, 2) {
 			continue // deleted (or replaced by what is added below)
+		}
+		if strings.HasSuffix(l.Kind, "~") && r.Chance(1, 2) {
+			continue // an unrelated subnet / map line deleted
 		}
 		out = append(out, l)
 	}
@@ -130,6 +161,7 @@ func ForeignEdit(g *Gen, locs [][]byte) []Line {
 			g2.NS(nm, nm.Child("ns"), "", g2.randIP(), pick())
 		}
 	}
+	unrelatedMaps(g2, 1+r.Intn(4))
 	out = append(out, g2.Lines...)
 	g.Names = append(g.Names, g2.Names...)
 	return out
@@ -152,7 +184,7 @@ func RunPairs(a *hlib.Args, e *hlib.Emitter, stream uint64) error {
 			ps = append(ps, p)
 		}
 	} else {
-		classes := []string{"located", "c02", "nested", "located"}
+		classes := []string{"located", "located", "nested", "located", "c02", "located"}
 		for i := 0; i < a.N; i++ {
 			r := hlib.NewRng(a.Seed, stream+uint64(i))
 			class := classes[i%len(classes)]
@@ -161,9 +193,18 @@ func RunPairs(a *hlib.Args, e *hlib.Emitter, stream uint64) error {
 			if r.Chance(1, 4) {
 				locs = append(locs, locB)
 			}
+			// the original already holds some unrelated subnets and maps (so that the edit can delete them)
+			if r.Chance(1, 2) {
+				gu := &Gen{R: r, Mtime: g.Mtime, Types: map[int]bool{}}
+				unrelatedMaps(gu, 1+r.Intn(3))
+				for _, l := range gu.Lines {
+					l.Kind += "~"
+					g.Lines = append(g.Lines, l)
+				}
+			}
 			before := append([]Line{}, g.Lines...)
 			after := ForeignEdit(g, locs)
-			nq := 24
+			nq := 12
 			if a.Tier == "thorough" {
 				nq = 40
 			}
